@@ -479,8 +479,8 @@ def _default_fn_class(lib, name):
 def run(R, ctx):
     R.explanation = (
         "Reader/writer agreement of the configuration layer decided on typed THIR: strictness of every configure(), serde attributes, "
-        "per-rule key sets of configure vs serialize_to_properties, the decision table of the generic rule serializer (abstract path "
-        "enumeration over the emptiness of properties/filters), collision guards for keys writing one field, and registry agreement. "
+        "per-rule key sets of configure vs serialize_to_properties, the generic rule serializer evaluated against a recording serializer for every "
+        "combination of empty / non-empty properties and filter lists, collision guards for keys writing one field, and registry agreement. "
         "Decides that nothing accepted can be silently dropped or lost on round-trip; does not decide pattern validity or JSON5 parsing."
     )
     R.assumptions += ["property keys are string literals in match patterns / insert calls (the only idiom in the repository)"]
